@@ -47,6 +47,13 @@ type c15Case struct {
 	// (possibly relative, possibly unclean) spelling of its name; its own references resolve as if it had
 	// been loaded under the canonical form of that name.
 	ParseAs string `json:"parse_as,omitempty"`
+	// Pair != nil: two referring templates whose directory names are string prefixes of one another ("/d1" and
+	// "/d") use relative names that spell the same string when glued to their directory ("/d1"+"x" and
+	// "/d"+"1x"); each still means the file next to its own referrer. Pair = {long dir, short dir, order}.
+	Pair []string `json:"pair,omitempty"`
+	// Content: the include sits in the content a template hands to a block that another directory defines
+	// ({{yield frame() content}}{{include "name"}}{{end}}): it belongs to the template it is written in.
+	Content string `json:"content,omitempty"` // "" | "imported" | "layout"
 }
 
 const c15TwinRef = "/tw/in/r"
@@ -86,9 +93,10 @@ func (r *recLoader) Open(p string) (io.ReadCloser, error) {
 }
 
 type recCache struct {
-	mu    *sync.Mutex
-	m     map[string]*jet.Template
-	trace *[]traceEv
+	mu     *sync.Mutex
+	m      map[string]*jet.Template
+	trace  *[]traceEv
+	refuse bool // Put records the call and drops the entry
 }
 
 func (c *recCache) Get(p string) *jet.Template {
@@ -102,7 +110,9 @@ func (c *recCache) Get(p string) *jet.Template {
 func (c *recCache) Put(p string, t *jet.Template) {
 	c.mu.Lock()
 	defer c.mu.Unlock()
-	c.m[p] = t
+	if !c.refuse {
+		c.m[p] = t
+	}
 	*c.trace = append(*c.trace, traceEv{"Put", p, true})
 }
 
@@ -161,10 +171,29 @@ var c15ExtLists = [][]string{
 	{".jet", ".html.jet"},
 	{".jet"},
 	{"", ".tpl"},
+	// entries that are plain name suffixes (no leading dot): used as they are
+	{"", "jet"}, {"-tpl", ".jet"}, {"_t", ""},
 }
+
+var c15Pairs = [][2]string{{"/d1", "/d"}, {"/ab", "/a"}, {"/a/bc", "/a/b"}, {"/x", "/"}, {"/d1/d2", "/d1/d"}}
 
 func genC15(t *rapid.T) c15Case {
 	c := c15Case{}
+	if rapid.IntRange(0, 14).Draw(t, "includeInContent") == 0 {
+		c.Via = "include"
+		c.Content = rapid.SampledFrom([]string{"imported", "layout", "imported-nested", "layout-include-in-block"}).Draw(t, "contentKind")
+		c.Spelling = rapid.SampledFrom([]string{"part", "./part", "sub/../part", "sub/part", "../pages/part"}).Draw(t, "contentName")
+		c.Exts = []string{"", ".jet"}
+		return c
+	}
+	if rapid.IntRange(0, 11).Draw(t, "prefixPair") == 0 {
+		pr := c15Pairs[rapid.IntRange(0, len(c15Pairs)-1).Draw(t, "pair")]
+		c.Via = rapid.SampledFrom([]string{"include", "extends", "import", "includeIfExists"}).Draw(t, "pairVia")
+		c.Pair = []string{pr[0], pr[1], rapid.SampledFrom([]string{"long-first", "short-first"}).Draw(t, "pairOrder")}
+		c.Spelling = rapid.SampledFrom([]string{"x", "x/t", "x/../y", "t.jet", "x/./t"}).Draw(t, "pairName")
+		c.Exts = []string{"", ".jet"}
+		return c
+	}
 	c.Via = rapid.SampledFrom([]string{"get", "extends", "import", "include", "include-computed", "include-stringer", "exec", "includeIfExists"}).Draw(t, "via")
 	c.Depth = rapid.IntRange(0, 3).Draw(t, "depth")
 	c.Spelling = genC15Spelling(t, "sp")
@@ -436,7 +465,106 @@ func judgeC15Concurrent(c c15Case) (v core.Verdict) {
 	return
 }
 
+// judgeC15Pair: see c15Case.Pair.
+func judgeC15Pair(c c15Case) (v core.Verdict) {
+	long, short := c.Pair[0], c.Pair[1]
+	n1 := c.Spelling
+	n2 := strings.TrimPrefix(long[len(short):], "/") + n1 // short + n2 and long + n1 are the same string
+	if short == "/" {
+		n2 = long[1:] + n1
+	}
+	ref := func(name string) string {
+		switch c.Via {
+		case "extends":
+			return fmt.Sprintf("{{extends %q}}", name)
+		case "import":
+			return fmt.Sprintf("{{import %q}}{{yield who()}}", name)
+		case "includeIfExists":
+			return fmt.Sprintf("{{includeIfExists(%q)}}", name)
+		}
+		return fmt.Sprintf("{{include %q}}", name)
+	}
+	target := func(dir, name string) string { return normPath(dir + "/" + name) }
+	if c.Via == "includeIfExists" { // the function form resolves against the root, whoever calls it
+		target = func(dir, name string) string { return normPath("/" + name) }
+	}
+	t1, t2 := target(long, n1), target(short, n2)
+	body := func(p string) string {
+		if c.Via == "import" {
+			return fmt.Sprintf("{{block who()}}T:%s{{end}}", p)
+		}
+		return "T:" + p
+	}
+	files := map[string]string{long + "/r.jet": ref(n1), short + "/r.jet": ref(n2), t1 + ".jet": body(t1), t2 + ".jet": body(t2)}
+	if short == "/" {
+		files["/r.jet"] = ref(n2)
+		delete(files, "//r.jet")
+	}
+	first, second := long+"/r", normPath(short+"/r")
+	want := "T:" + t1 + "|T:" + t2
+	if c.Pair[2] == "short-first" {
+		first, second = second, first
+		want = "T:" + t2 + "|T:" + t1
+	}
+	files["/pair/entry.jet"] = fmt.Sprintf("{{include %q}}|{{include %q}}", first, second)
+	v.NonTrivial = t1 != t2
+	v.Label("prefix-pair:"+c.Via, "pair-order:"+c.Pair[2])
+	s, _ := jetrun.NewSet(files)
+	t, o := jetrun.Get(s, "/pair/entry")
+	if !o.Failed() {
+		o = jetrun.Exec(t, nil, nil)
+	}
+	if o.Failed() || o.Out != want {
+		v.Failf("templates %q: executing /pair/entry must render %q (every relative name means the file next to the template that uses it), got %s", files, want, o)
+	}
+	return
+}
+
+// judgeC15Content: see c15Case.Content.
+func judgeC15Content(c c15Case) (v core.Verdict) {
+	want := "T:" + normPath("/pages/"+c.Spelling)
+	files := map[string]string{
+		"/pages/part.jet": "T:/pages/part", "/pages/sub/part.jet": "T:/pages/sub/part",
+		// decoys next to the templates that define the blocks
+		"/lib/part.jet": "T:/lib/part", "/lib/sub/part.jet": "T:/lib/sub/part", "/lay/part.jet": "T:/lay/part", "/lay/sub/part.jet": "T:/lay/sub/part", "/part.jet": "T:/part", "/sub/part.jet": "T:/sub/part",
+		"/lib/frames.jet": `{{block frame()}}<f>{{yield content}}</f>{{end}}{{block outer()}}<o>{{yield frame() content}}[{{yield content}}]{{end}}</o>{{end}}`,
+		"/lay/l.jet":      `<l>{{block frame()}}<f>{{yield content}}</f>{{end}}{{block main()}}default{{end}}</l>`,
+	}
+	inc := fmt.Sprintf("{{include %q}}", c.Spelling)
+	switch c.Content {
+	case "imported":
+		files["/pages/p.jet"] = `{{import "/lib/frames.jet"}}{{yield frame() content}}` + inc + `{{end}}`
+		want = "<f>" + want + "</f>"
+	case "imported-nested": // the content is handed on by a block of the library to another one
+		files["/pages/p.jet"] = `{{import "/lib/frames.jet"}}{{yield outer() content}}` + inc + `{{end}}`
+		want = "<o><f>[" + want + "]</f></o>"
+	case "layout":
+		files["/pages/p.jet"] = `{{extends "/lay/l.jet"}}{{block main()}}{{yield frame() content}}` + inc + `{{end}}{{end}}`
+		want = "<l><f></f><f>" + want + "</f></l>"
+	default: // no content involved: an overriding block is written in the page, not in the layout
+		files["/pages/p.jet"] = `{{extends "/lay/l.jet"}}{{block main()}}` + inc + `{{end}}`
+		want = "<l><f></f>" + want + "</l>"
+	}
+	v.NonTrivial = true
+	v.Label("include-in-content:" + c.Content)
+	s, _ := jetrun.NewSet(files)
+	t, o := jetrun.Get(s, "/pages/p")
+	if !o.Failed() {
+		o = jetrun.Exec(t, nil, nil)
+	}
+	if o.Failed() || o.Out != want {
+		v.Failf("templates %q: executing /pages/p must render %q (an include belongs to the template it is written in, whoever renders the content), got %s", files, want, o)
+	}
+	return
+}
+
 func judgeC15(c c15Case) (v core.Verdict) {
+	if c.Content != "" {
+		return judgeC15Content(c)
+	}
+	if len(c.Pair) == 3 {
+		return judgeC15Pair(c)
+	}
 	if c.Via == "get" && len(c.Others) > 0 {
 		return judgeC15Concurrent(c)
 	}
